@@ -436,6 +436,10 @@ def run(seed, sc, trace=None, tier='quick'):
                         slots = preplace(nodelist, task['description'])
                         if not slots:
                             continue          # the application holds it back
+                        if spec.get('shuffle'):
+                            # the application may list the ranks in any order
+                            import random as _random
+                            _random.Random(spec['shuffle']).shuffle(slots)
                         task['description']['slots'] = slots
                         task['description']['partition'] = None
                         st['preplaced'].add(uid)
